@@ -14,7 +14,7 @@ def build(ctx):
     return ctx.cc("hrun", srcs)
 
 
-def gen_configs(ctx, n, threads=(1, 2, 3, 4), ckpts=(1, 2, 3, 7, 0), big=False, tterm=False, fossil_heavy=False):
+def gen_configs(ctx, n, threads=(1, 2, 3, 4), ckpts=(1, 2, 3, 7, 0), big=False, tterm=False, fossil_heavy=False, sparse=0):
     rnd = random.Random(ctx.seed * 7919 + 13)
     out = []
     for i in range(n):
@@ -36,6 +36,13 @@ def gen_configs(ctx, n, threads=(1, 2, 3, 4), ckpts=(1, 2, 3, 7, 0), big=False, 
             c["period"] = rnd.choice([0, 0, 10])
             c["thr"] = rnd.choice([150, 300, 500] if not big else [500, 1000, 2000])
             c["burst"] = rnd.choice([20, 60, 200])
+        if i < sparse:
+            # LPs on very different time scales and (almost) no cross traffic: the fast-clock LPs run many GVT rounds ahead of the
+            # GVT with a history that lies entirely above it (fossil collection finds nothing to release), checkpoint after every event
+            c.update({"skew": 500, "fan": rnd.choice([1, 1, 2]), "thr": rnd.choice([2500, 4000]), "spread": 0, "ckpt": 1, "period": 0,
+                      "threads": rnd.choice([2, 3]), "lps": rnd.choice([3, 4, 6]), "mem": 0, "rng": 0, "burst": rnd.choice([20, 60, 200]),
+                      "budget": 8000000})
+            c.pop("tterm", None)
         out.append(c)
     return out
 
